@@ -63,7 +63,12 @@ def judge(run, cases, test, trace_module, prefixes, shards=4, env=None, sig_fn=N
         if crash is not None:
             done = {r["id"] for r in recs}
             nxt = [c for c in part if c["id"] not in done]
-            if ("panic:" in crash or "fatal error:" in crash) and ("go-header" in crash or "/repo/" in crash) and nxt:
+            if "VH-LIVELOCK" in crash and nxt:
+                # the driver's real-time watchdog: the call under test spun without returning or blocking
+                run.violation({"family": pid, "symptom": "livelock"},
+                              "the call neither returned nor blocked (it spins; no virtual time passes) in case %s\n%s"
+                              % (json.dumps(nxt[0])[:800], crash[-600:]))
+            elif ("panic:" in crash or "fatal error:" in crash) and ("go-header" in crash or "/repo/" in crash) and nxt:
                 run.violation({"family": pid, "symptom": "process_crash"},
                               "process crashed inside go-header while running case %s\n%s" % (json.dumps(nxt[0])[:800], crash[-2000:]))
             else:
